@@ -60,6 +60,9 @@ def space(size: int, pool_n: int):
     odd += [apply_(f, a), apply_(P.App(f, a), b), apply_(apply_(f, a), b), apply_(apply_(apply_(f, a), b), P.MetaVar(0)), idn(P.App(P.App(f, a), b)),
             idn(apply_(P.App(f, a), b)), apply_(idn(f), a), idn(K.nary_app(f, 2)(a, b)), apply_(K.nary_app(f, 1)(a), b), apply_(P.MetaVar(0), a),
             apply_(P.neg(a), b)]
+    # metavariables that differ only in their application-context holes (the constraint list easiest to forget)
+    odd += [P.MetaVar(0, app_ctx_holes=(P.EVar(0),)), P.Implies(P.MetaVar(0, app_ctx_holes=(P.EVar(0),)), P.MetaVar(0)),
+            P.neg(P.MetaVar(0, app_ctx_holes=(P.EVar(1),))), P.MetaVar(1, app_ctx_holes=(P.EVar(0), P.EVar(1)))]
     return S + inst + odd
 
 
